@@ -174,7 +174,7 @@ class Fingerprinter(object):
         if mol is not self.mol:
             self.reset_mol()
             self.initialize_mol(mol)
-        elif conf is not self.conf:
+        else:
             self.reset_conf()
 
         self.initialize_conformer(conf)
